@@ -5,7 +5,8 @@
 //!          unwritable file (uid dropped) | 7 name too long | 8 no file descriptors left | 9 symlink loop
 //!          10 empty path | 11 existing longer file (must be truncated) | 12 existing file of the same length that
 //!          differs only in its last 16 bytes | 13 … only in its first 16 bytes | 14 existing shorter file (a prefix) |
-//!          15 existing identical file
+//!          15 existing identical file | 16 no fault; the rendering embeds a logo given as a RELATIVE path to a file that
+//!          exists in the working directory, and the output goes to another directory (png only; compared in the child)
 use crate::common::*;
 use fast_qr::convert::image::ImageBuilder;
 use fast_qr::convert::svg::SvgBuilder;
@@ -80,6 +81,30 @@ pub fn child(kind: usize, k: usize, renderer: &str, size: usize, path: &str) {
             _ => {}
         }
     }
+    if kind == 16 {
+        // working directory = the directory that holds logo.svg (created by the parent next to the output directory)
+        let base = std::path::Path::new(path).parent().and_then(|p| p.parent()).map(|p| p.join("logo")).unwrap_or_default();
+        let _ = std::env::set_current_dir(&base);
+        let q = symbol();
+        let p = path.to_string();
+        let res = std::panic::catch_unwind(move || {
+            let mut b = ImageBuilder::default();
+            b.margin(size);
+            b.image("logo.svg".to_string());
+            let expected = b.to_bytes(&q).unwrap_or_default();
+            let r = b.to_file(&q, &p);
+            let on_disk = std::fs::read(&p).ok();
+            match (r, on_disk) {
+                (Ok(()), Some(f)) if f == expected => "ok:equal".to_string(),
+                (Ok(()), Some(f)) => format!("ok:differs:{}", f.len()),
+                (Ok(()), None) => "ok:absent".to_string(),
+                (Err(_), _) => "err:-".to_string(),
+            }
+        });
+        let s = res.unwrap_or_else(|_| "trap:-".to_string());
+        let _ = std::io::stdout().write_all(s.as_bytes());
+        return;
+    }
     let (r, p) = (renderer.to_string(), path.to_string());
     let res = std::panic::catch_unwind(move || write_file(&r, size, &p));
     let s = match res {
@@ -140,6 +165,16 @@ pub fn file_line(kind: usize, k: usize, renderer: &str, size: usize) -> String {
             }
             std::fs::write(&path, old).unwrap();
         }
+        16 => {
+            std::fs::create_dir_all(format!("{}/logo", dir)).unwrap();
+            std::fs::create_dir_all(format!("{}/out", dir)).unwrap();
+            std::fs::write(
+                format!("{}/logo/logo.svg", dir),
+                "<svg xmlns=\"http://www.w3.org/2000/svg\" viewBox=\"0 0 10 10\"><rect width=\"10\" height=\"10\" fill=\"#ff00ff\"/></svg>",
+            )
+            .unwrap();
+            path = format!("{}/out/out.{}", dir, ext);
+        }
         14 => std::fs::write(&path, &expected[..expected.len() / 2]).unwrap(),
         15 => std::fs::write(&path, &expected).unwrap(),
         _ => {}
@@ -148,18 +183,25 @@ pub fn file_line(kind: usize, k: usize, renderer: &str, size: usize) -> String {
     let out = std::process::Command::new(exe)
         .args(["fault-child", &kind.to_string(), &k.to_string(), renderer, &size.to_string(), &path])
         .output();
+    let mut child_state: Option<String> = None;
     let result = match out {
         Ok(o) => {
             let s = String::from_utf8_lossy(&o.stdout).to_string();
             if s == "ok" || s == "err" || s == "trap" {
                 s
+            } else if kind == 16 && s.contains(':') {
+                let (a, b) = s.split_once(':').unwrap();
+                child_state = Some(if a == "err" || a == "trap" { "absent".to_string() } else { b.to_string() });
+                a.to_string()
             } else {
                 format!("crash:{:?}", o.status.code())
             }
         }
         Err(_) => "spawn-failed".to_string(),
     };
-    let state = if kind == 4 || kind == 2 || kind == 10 {
+    let state = if let Some(cs) = child_state {
+        cs
+    } else if kind == 4 || kind == 2 || kind == 10 {
         "absent".to_string()
     } else {
         match std::fs::read(&path) {
@@ -178,6 +220,9 @@ pub fn gen(out: &mut crate::gen::Out, rng: &mut crate::rng::Rng, thorough: bool)
         for size in if thorough { vec![0usize, 4, 11] } else { vec![4usize] } {
             for kind in [0usize, 1, 2, 3, 4, 6, 7, 8, 9, 10, 11, 12, 13, 14, 15] {
                 out.job(move || file_line(kind, 0, renderer, size));
+            }
+            if renderer == "png" {
+                out.job(move || file_line(16, 0, renderer, size));
             }
             let len = rendering(renderer, size).len();
             let mut ks: Vec<usize> = vec![0, 1, 2, len / 2, len - 1, len, len + 1, 4095, 4096, 4097, 8192];
